@@ -302,7 +302,7 @@ fn strategy() -> impl Strategy<Value = COp> {
 
 pub fn parts(ctx: &mut Ctx) {
     let len = ctx.scale(5, 6);
-    let n = ctx.scale(12_000, 200_000);
+    let n = ctx.scale(12_000, 400_000);
     let alpha = vec![COp::Add(1, 0), COp::Add(2, 1), COp::Remove(0, false), COp::Remove(65535, true), COp::Recover(0, 1, false), COp::GetState(0), COp::UpdateState(0), COp::ReadPtr(0)];
     driver::parts::<ContainerSut>(ctx, alpha, len, 1, &[0, 1, 2, 3], &[0, 1, 2, 3, 4], strategy(), n);
 }
